@@ -1,10 +1,13 @@
 import DS.Model.Sym
+import DS.Model.Formats
 import DS.Model.Load
 import DS.Model.Sched
 import DS.Model.World
 import DS.Model.Orbit
 import DS.Model.Adp
 import DS.Gen.DIndex
+import DS.Model.Parsers
+import DS.Gen.Handlers
 import DS.Model.Lattice
 import DS.Model.Expand
 /-!
@@ -50,6 +53,8 @@ def symHandle (ws : List String) : Option String :=
 Command names are prefixed by the model (`sym.`, `lat.`, `adp.`, `stru.`, ...). -/
 def handlers : List (List String → Option String) :=
   [ symHandle
+  , DS.Parsers.parsersHandle DS.Gen.parsersCfg
+  , fmtHandle
   , DS.Load.loadHandle
   , DS.Sched.schedHandle
   , DS.World.worldHandle
